@@ -137,6 +137,10 @@ impl Iterator for TokenIterator {
             }
 
             match ch {
+                _ if status == Character && buffer.is_empty() => {
+                    // the character right after `%` is taken literally, even if it is a delimiter
+                    buffer.push(ch);
+                },
                 c if c.is_whitespace() || c == ',' => {
                     status = WhiteSpace;
                 },
